@@ -115,6 +115,7 @@ type VC struct {
 	constLens  map[string]int64  // slice terms with a literal length (varargs arrays)
 	boxed      map[string]Val    // interface term -> boxed value
 	entryVars  map[string]Val    // parameters of the function under verification (entry values)
+	noInst     bool              // render queries without engine-side quantifier instances
 }
 
 func newVC(eng *Engine, name string, c *Contract) *VC {
